@@ -406,6 +406,75 @@ class ComputeCoefficients(FunctionContract):
         return (bool(pr), {"native_harness_problems": pr[:3], "controls": c, "payoff_dimension": d, "prices": kind})
 
 
+class ControlReadsItsPath(Lemma):
+    """a control variate with a PATH-DEPENDENT payoff (down-and-out barrier call on the spot; real ControlVariates.process /
+    process_mlmc, real Product and Barrier bodies, 3 symbolic path points): the control's value on a path is what the product
+    is worth on that path on its own -- knocked out iff THIS path goes below the barrier, whatever path was valued before,
+    and in the multilevel call each component with its own path."""
+    prop = "C07"
+    cases = ("breaching path", "quiet path", "quiet path after a breaching one", "multilevel: fine breaches, coarse does not", "multilevel: coarse breaches, fine does not")
+
+    def __init__(self):
+        self.name = "property:path-dependent-control-reads-its-own-path"
+
+    def prove(self, vc, case):
+        nm = f"{self.name}[{case}]"
+        UND, PAY = "rpylib.product.underlying:", "rpylib.product.payoff:"
+        strike, barrier = vc.real("strike"), vc.real("barrier")
+        vc.assume(And(strike > 0, barrier > 0))
+        pay = vc.new(PAY + "Barrier", strike, vc.enum(PAY + "PayoffType", "CALL"), vc.enum(PAY + "BarrierType", "DOWN_AND_OUT"), barrier)
+        ctrl = vc.new("rpylib.product.product:Product", vc.new(UND + "Spot"), pay, 1.0)
+        cv = vc.new("rpylib.product.product:ControlVariates", [ctrl], [0.0])
+        vc.method(cv, "initialisation", vc.new(UND + "Spot"))
+        times = np.array([0.0, 0.5, 1.0])
+
+        def path(name, breaching):
+            xs = vc.reals(name, 3)
+            vc.assume(And(*[x > 0 for x in xs]))
+            vc.assume(xs[1] < barrier if breaching else And(*[x >= barrier for x in xs]))
+            return np.array(xs, dtype=object)
+        vanilla = lambda s_: If(s_ - strike > 0, s_ - strike, 0.0)
+        if case.startswith("multilevel"):
+            fine_breaches = "fine breaches" in case
+            pf, pc = path("fine", fine_breaches), path("coarse", not fine_breaches)
+            res = np.ravel(np.asarray(vc.method(cv, "process_mlmc", times, pf, pc, pf, pc, pf[-1], pc[-1]), dtype=object)).tolist()
+            ok = len(res) == 2
+            vc.check(nm + "::one-value-per-component", ok)
+            if ok:
+                want = (0.0, vanilla(pc[-1])) if fine_breaches else (vanilla(pf[-1]), 0.0)
+                vc.check(nm + "::each-component-is-knocked-out-iff-its-own-path-breaches", And(compare(res[0], want[0], "=="), compare(res[1], want[1], "==")))
+            return
+        if case == "quiet path after a breaching one":
+            pa = path("earlier", True)
+            vc.method(cv, "process", times, pa, pa, pa[-1])
+        p_ = path("path", case == "breaching path")
+        res = np.ravel(np.asarray(vc.method(cv, "process", times, p_, p_, p_[-1]), dtype=object)).tolist()
+        vc.check(nm + "::one-value", len(res) == 1)
+        if len(res) == 1:
+            vc.check(nm + "::knocked-out-iff-this-path-breaches", compare(res[0], 0.0 if case == "breaching path" else vanilla(p_[-1]), "=="))
+
+    def replay(self, model, clause, case):
+        from rpylib.product.product import Product, ControlVariates
+        from rpylib.product.underlying import Spot
+        from rpylib.product.payoff import Barrier, PayoffType, BarrierType
+        ctrl = Product(Spot(), Barrier(100.0, PayoffType.CALL, BarrierType.DOWN_AND_OUT, 90.0), 1.0)
+        cv = ControlVariates([ctrl], [0.0])
+        cv.initialisation(Spot())
+        t = np.array([0.0, 0.5, 1.0])
+        breach, quiet = np.array([100.0, 85.0, 108.0]), np.array([100.0, 95.0, 108.0])
+        if case.startswith("multilevel"):
+            pf, pc = (breach, quiet) if "fine breaches" in case else (quiet, breach)
+            got = np.ravel(cv.process_mlmc(t, pf, pc, pf, pc, pf[-1], pc[-1])).astype(float).tolist()
+            want = [0.0, 8.0] if "fine breaches" in case else [8.0, 0.0]
+            return (got != want, {"fine_path": pf.tolist(), "coarse_path": pc.tolist(), "control_values_fine_coarse": got, "own_values": want})
+        if case == "quiet path after a breaching one":
+            cv.process(t, breach, breach, breach[-1])
+        p_ = breach if case == "breaching path" else quiet
+        got = float(np.ravel(cv.process(t, p_, p_, p_[-1]))[0])
+        want = 0.0 if case == "breaching path" else 8.0
+        return (got != want, {"history": case, "path": p_.tolist(), "barrier": 90.0, "strike": 100.0, "control_value": got, "its_own_value_on_this_path": want})
+
+
 class ControlUnderlyings(Lemma):
     """ControlVariates.initialisation + process (real bodies) with controls written on the n-th spot while the priced product is
     written on the whole spot vector: every control is evaluated from the product's payoff underlying of THIS path (its own
@@ -705,7 +774,7 @@ class StandardEngineBattery:
         return (bool(pr), {"problems": pr[:3]})
 
 
-UNITS = [EnginePrice(), EngineInitialisation(), PriceAndError(), ControlVariate(), ControlVariate2(), ComputeCoefficients(), ControlUnderlyings()]
+UNITS = [EnginePrice(), EngineInitialisation(), PriceAndError(), ControlVariate(), ControlVariate2(), ComputeCoefficients(), ControlUnderlyings(), ControlReadsItsPath()]
 ASSUMPTIONS = ["A1: floats are mathematical reals", "the payoff of a path is a function of the path (C17); simulate_one_path returns a fresh path per call",
                f"estimator algebra: every sample size n <= {N_SAMPLES} (symbolic values)"]
 TRUSTED_BASE = ["z3 5.1 (LRA/NRA + arrays)", "pyvc interpreter + numpy models (mean, std, cov, inv for 1x1/2x2)"]
